@@ -134,4 +134,24 @@ var props = map[string]propDef{
 		Thorough:       budget{Runs: 20000, Chunk: 100, Wall: 40 * time.Minute, PerChunkGrace: 5 * time.Minute},
 		MinimiseBudget: 60 * time.Second,
 	},
+	"C20": {
+		Binary: "dsim-refs", Harness: "C20", Level: "exploration",
+		Rule: "each run = 2-4 session tasks under the seeded S1 scheduler issuing a per-run mix of datas.Database operations on 3 branches, their working sets and 2 tags: Commit, CommitWithWorkingSet, FastForward (to a dangling descendant of a random known commit), SetHead (force), Tag, Delete with working-set check, UpdateWorkingSet, and atomic reads of the whole dataset map. Mode shared: one DoltDB/datas.Database over one store object (journaling or file-manifest) whose ChunkStore is wrapped so that tasks park before Root/Rebase/Commit - the window between reading the store root and the compare-and-swap; mode procs: one DoltDB per task on a shared file-manifest directory, parked at a per-run subset of file-operation classes. The recorded history (<= 70 operations) is checked with porcupine against a map dataset-id -> address in which every successful conditional update requires the state the caller observed (commit: head == observed head; commit+working set: both; fast-forward: head == observed and new descends from it; working-set update: ws == expected; tag: absent), refusals change nothing, forced moves and deletes are unconditional; a successful FastForward to a non-descendant is flagged directly. One evaluation = one atomic read checked. Non-trivial = at least one context switch and one successful update; distinct by executed-schedule hash.",
+		Assumptions: []string{"all commits carry the same (empty) root value and differ by their metadata: the property is about addresses in the dataset map, not table data", "tasks of one process park only at the ChunkStore wrapper (no in-process lock is held there)", "history squashing / rebase are forced moves and are covered as SetHead"},
+		Real:        []string{"go/store/datas (database, datasets, commit/tag/working-set builders)", "go/store/types ValueStore", "go/store/prolly address map", "go/libraries/doltcore/doltdb (DoltDB construction, empty repo)", "go/store/nbs journaling and file-manifest stores"}, Stub: append([]string{"goroutine scheduling (seeded S1 scheduler)"}, storeStub...), Persistence: "not used",
+		ExpectProbes:   []string{"ok:commit", "ok:commitws", "ok:ff", "ok:sethead", "ok:tag", "ok:delete", "ok:updatews", "refused:commit", "refused:commitws", "refused:ff", "refused:updatews", "context-switch", "porcupine_ok"},
+		Quick:          budget{Runs: 400, Chunk: 25, Wall: 150 * time.Second, PerChunkGrace: 120 * time.Second},
+		Thorough:       budget{Runs: 30000, Chunk: 100, Wall: 40 * time.Minute, PerChunkGrace: 5 * time.Minute},
+		MinimiseBudget: 60 * time.Second,
+	},
+	"C21": {
+		Binary: "dsim-refs", Harness: "C21", Level: "exploration",
+		Rule: "two parts per run. (1) the C20 interleaving harness with CommitWithWorkingSet, UpdateWorkingSet, Commit, SetHead and atomic whole-map reads always in the mix: porcupine requires every read to be explained by a linearization in which a successful commit+working-set update changes the head and the working set in one step (a read showing the new head with the old working set, or the reverse, has no linearization). (2) crash images: a single session performs 2-5 updates (CommitWithWorkingSet, Commit, UpdateWorkingSet) on a journaling store over the recording OS; for every op-log position on the journal/manifest and the variants lose-all-unsynced, keep-all, journal cut at record boundaries and garbage from mid-record on, the image is reopened and the dataset map must be exactly the map after the last acknowledged update or after the one in flight (never head from one update and working set from another). One evaluation = one atomic read or one distinct crash image.",
+		Assumptions: []string{persistenceModel, "root values are identical across commits; the pair is identified by the addresses in the dataset map", "SQL-level dolt_commit with crash images is decided in the SQL harnesses"},
+		Real:        []string{"go/store/datas CommitWithWorkingSet / UpdateWorkingSet / Commit", "go/store/nbs journaling store and its recovery"}, Stub: append([]string{"goroutine scheduling (seeded S1 scheduler)"}, storeStub...), Persistence: persistenceModel,
+		ExpectProbes:   []string{"ok:commitws", "refused:commitws", "ok:updatews", "crash:journal-prefix", "crash:journal-garbage", "crash_state_consistent", "porcupine_ok"},
+		Quick:          budget{Runs: 300, Chunk: 20, Wall: 150 * time.Second, PerChunkGrace: 120 * time.Second},
+		Thorough:       budget{Runs: 20000, Chunk: 100, Wall: 40 * time.Minute, PerChunkGrace: 5 * time.Minute},
+		MinimiseBudget: 60 * time.Second,
+	},
 }
